@@ -58,6 +58,14 @@ def dense(seed, shape, tok, var="g"):
         L = np.tril(ints(g, shape, -1, 1, cplx=c), -1) + np.eye(r)
         U = np.triu(ints(g, shape, -1, 1, cplx=c), 1) + np.eye(r)
         A = L @ U
+    elif var in ("orth", "stf"):  # (columns of a) signed / phased permutation matrix: exactly unitary
+        assert r >= k
+        p = g.permutation(r)
+        ph = np.array([1, -1, 1j, -1j])[g.integers(0, 4 if c else 2, size=r)]
+        if r > 1:
+            ph[0] = -1  # never the identity
+        Q = (np.eye(r)[p] * ph[None, :]).astype(np.complex128)
+        A = Q[:, :k]
     else:
         raise ValueError(var)
     return np.ascontiguousarray(A.astype(DT[tok]))
@@ -98,7 +106,7 @@ def sparse_dense(seed, shape, tok, var="g"):
 SCALARS = {
     "two": 2, "m3": -3, "zero": 0, "half": 0.5, "cj": 1 + 2j, "f2": 2.0, "one": 1, "m1": -1,
     "np32": np.float32(2), "npi3": np.int64(3), "arr2": np.array(2.), "arrcj": np.array(1 + 2j),
-    "d2": 2, "dm4": -4, "dhalf": 0.5, "four": 4, "quarter": 0.25,
+    "i": 1j, "mi": -1j, "d2": 2, "dm4": -4, "dhalf": 0.5, "four": 4, "quarter": 0.25,
 }
 
 
